@@ -45,6 +45,8 @@ def concatenate_args(axis, *args):
 
 
 concatenate = lambda arr_list, axis=0: concatenate_args(axis, *arr_list)
+if hasattr(_np, "concat"):  # NumPy 2: another name of the same function
+    concat = concatenate
 vstack = row_stack = lambda tup: concatenate([atleast_2d(_m) for _m in tup], axis=0)
 
 
